@@ -1,2 +1,26 @@
-(* Model for C01 — to be written. Executable definitions only, no proofs. *)
+(* C01: no input can crash or hang inspection.
+   The executable models of the components live in the other Model files (Base64, Dispatch, Keys,
+   Curve, Jwt, Rpm, PgpKey/PgpEntity, Der, Uuid, Containers, Routes, Dn, Render, Walk); this file holds
+   what is specific to C01: the check that every potential panic site of the source, as scanned now,
+   is classified (SafetySites.v). *)
 From WI Require Import Lib.Base Lib.Info.
+From Coq Require String.
+From WI Require gen.Scan Model.SafetySites.
+Open Scope N_scope.
+
+Definition site_known (s : string * string * N) : bool :=
+  match s with (f, k, n) =>
+    existsb (fun c => match c with (f', k', n', _) =>
+               (String.eqb f f' && String.eqb k k' && (n =? n'))%bool end)
+            Model.SafetySites.site_class
+  end.
+
+(* every scanned (function, kind, count) has an entry with exactly that count *)
+Definition sites_classified (sites : list (string * string * N)) : bool := forallb site_known sites.
+
+(* and no classification entry is stale (refers to sites that no longer exist) *)
+Definition class_used (sites : list (string * string * N)) : bool :=
+  forallb (fun c => match c with (f, k, n, _) =>
+             existsb (fun s => match s with (f', k', n') =>
+                        (String.eqb f f' && String.eqb k k' && (n =? n'))%bool end) sites end)
+          Model.SafetySites.site_class.
